@@ -283,6 +283,7 @@ class Check:
         self.mismatches = []      # dict(key=..., what=..., case=..., expect=..., got=..., kind=...)
         self.extra = {}
         self.rule = ""
+        self.preds = {}           # name -> predicate(case) used by predicate-class known findings
         self.exhaustive = False
         self.workdir = os.path.join(BUILD, "run", prop)
         shutil.rmtree(self.workdir, ignore_errors=True)
@@ -320,6 +321,14 @@ class Check:
                 if sig in e.get("keys", ()):  # exact signature incl. failure kind
                     matched = e
                     break
+                if "pred" in e and e["pred"] in self.preds and m["kind"] in e.get("kinds", ()):
+                    # a named input class (closed predicate over the case) together with the listed failure kinds
+                    try:
+                        if self.preds[e["pred"]](m["case"]):
+                            matched = e
+                            break
+                    except Exception:
+                        pass
             if matched is not None:
                 hits.setdefault(matched["what"], []).append(m)
             else:
